@@ -189,7 +189,9 @@ def get_filters(component, with_matches=False):
         return dict() if with_matches else set()
 
     if component not in _CACHE:
-        _CACHE[component] = inner(component)
+        # in sorted order: a line that matches several filters is charged to
+        # the first of them, which must not depend on the process hash seed
+        _CACHE[component] = dict(sorted(inner(component).items()))
 
     return _CACHE[component] if with_matches else set(_CACHE[component].keys())
 
